@@ -14,9 +14,10 @@ RULE = ("random placed scenes (all boundary kinds incl. PML, blocks, sources, de
         "equal-spacing rectilinear grid stepped by forward() vs the Coq model (metric factors computed by the model)")
 ASSUMPTIONS = ["float edges k*spacing make the spacings equal only up to round-off; the uniformity classification of the implementation decides which code path runs"]
 TRUSTED = ["correspondence harness"]
-LEVEL_TEXT = ("Theorem (PML-free scenes, any number of steps): if every cell width equals the reference spacing, all metric factors are 1 and the scene steps "
-              "exactly like its uniform description. The three public grid descriptions are compared on the implementation through run_fdtd.")
-LEVEL_NOTE = "PARTIAL: placement-time grid resolution (edges, time step from the CFL formula, uniformity detection) is covered by C37 and by the differential runs, not by this theorem."
+LEVEL_TEXT = ("Theorem (every scene of the model incl. CPML layers, any number of steps): if every cell width equals the reference spacing, all metric factors "
+              "are 1 and the scene steps exactly like its uniform description (E, H, psi). The public grid descriptions (UniformGrid, RectilinearGrid.uniform / "
+              "custom, QuasiUniformGrid) are compared on the implementation through run_fdtd.")
+LEVEL_NOTE = "Placement-time grid resolution (edges, time step from the CFL formula, uniformity detection) is covered by C37 and by the differential runs, not by this theorem."
 TECHNIQUE = "Coq proof (metric factors reduce to 1 by field) + differential runs over grid descriptions"
 GRIDS = [None, "rect_uniform", "rect_custom", "quasi"]
 
